@@ -74,6 +74,10 @@ func rulesC06(c *Ctx) {
 	c.ruleSQLAgreement("R4", map[string]bool{"proofs": true, "pending_proofs": true, "blind_signatures": true})
 	R.Rule("R5", "the signatures are stored under exactly the B_ strings the duplicate / already-signed checks compared (shared with C15.R1): no normalisation between the check and the key", 2)
 	c.ruleSigsSavedForOutputs("R5")
+	R.Rule("R7", "a refused multi-row write leaves no rows: the spent-table, pending-table and signature inserts run in one transaction that is rolled back on the first failing row and committed only after the last (shared with C01.R6 / C03.R7 / C07.M)", 9)
+	for _, role := range []string{roleMarkSpent, roleLock, roleSaveSigs} {
+		c.checkAtomicMultiRow("R7", role)
+	}
 	R.Rule("R6", "the request operations keep no request-keyed state in memory: swap, melt and mint do not write a map of the long-lived mint object (what a refused request leaves in memory is not undone by any storage rollback; such a mechanism is not decided by these rules)", 3)
 	c.c06NoInMemoryRequestState()
 	c.vocabProblems("R1")
